@@ -87,17 +87,35 @@ def runD : St → List Delta → Nat → Except Nat St
 
 /-! ### slide part numbering (`parts/presentation.py`: `rename_slide_parts`, `_next_slide_partname`) -/
 
-/-- the numbers given by the first access to `Presentation.slides`: the `n` listed slide parts get 1..n in list order,
-    the `k` slide parts that are in the package but not in the slide-id list get n+1..n+k -/
-def renamedNumbers (n k : Nat) : List Nat := List.range' 1 (n + k)
+/-- slide part numbers: those of the slide parts in the slide-id list, in presentation order, and those of the slide
+    parts that are in the package but not in that list -/
+structure SlideNames where
+  listed : List Nat
+  unlisted : List Nat
+deriving Repr, DecidableEq
 
-/-- the number `add_slide` gives the next new slide when `j` slides have been added since the renaming -/
-def nextSlideNumber (n k j : Nat) : Nat := (n + j) + k + 1
+/-- `rename_slide_parts(rIds, skip)`: the listed slide parts get 1..n in list order, the unlisted ones follow after
+    `skip` free numbers -/
+def renameSlides (nListed nUnlisted skip : Nat) : SlideNames :=
+  { listed := List.range' 1 nListed, unlisted := List.range' (nListed + skip + 1) nUnlisted }
+
+/-- the first access to `Presentation.slides` -/
+def renamedNumbers (n k : Nat) : SlideNames := renameSlides n k 0
+
+/-- `_next_slide_partname`: one more than the length of the slide-id list -/
+def nextSlideNumber (s : SlideNames) : Nat := s.listed.length + 1
+
+/-- `PresentationPart.add_slide`: unlisted slide parts move up by one (only when there are any), the new slide takes
+    the number after the listed ones and joins the list -/
+def addSlide (s : SlideNames) : SlideNames :=
+  let s' := if s.unlisted.length = 0 then s else
+    { (renameSlides s.listed.length s.unlisted.length 1) with listed := List.range' 1 s.listed.length }
+  { s' with listed := s'.listed ++ [nextSlideNumber s'] }
 
 /-- the numbers in use after `j` additions -/
-def numbersAfter (n k : Nat) : Nat → List Nat
+def numbersAfter (n k : Nat) : Nat → SlideNames
   | 0 => renamedNumbers n k
-  | j + 1 => numbersAfter n k j ++ [nextSlideNumber n k j]
+  | j + 1 => addSlide (numbersAfter n k j)
 
 
 end Pptx.Pkg
